@@ -794,7 +794,9 @@ class VLE(Equilibrium, phases='lg'):
     def set_TH(self, T, H, gas_conversion=None, liquid_conversion=None):
         self._setup(gas_conversion, liquid_conversion)
         if self._N == 0: raise RuntimeError('no chemicals present to perform VLE')
-        if self._N == 1: return self._set_TH_chemical(T, H)
+        if self._N == 1:
+            self._thermal_condition.T = T
+            return self._set_TH_chemical(T, H)
         self._T = T
         index = self._index
         mol = self._mol_vle
@@ -843,7 +845,9 @@ class VLE(Equilibrium, phases='lg'):
     def set_TS(self, T, S, gas_conversion=None, liquid_conversion=None):
         self._setup(gas_conversion, liquid_conversion)
         if self._N == 0: raise RuntimeError('no chemicals present to perform VLE')
-        if self._N == 1: return self._set_TS_chemical(T, S)
+        if self._N == 1:
+            self._thermal_condition.T = T
+            return self._set_TS_chemical(T, S)
         self._T = T
         index = self._index
         mol = self._mol_vle
